@@ -33,6 +33,9 @@ CHECKS = {
  'C13': dict(engine='cases', tech='TLA+ reference definitions of the bundled models (spec/Models.tla: Ising energy, exciton Hamiltonian, bit-reversed DFT exponent tables, FPU/Kuramoto right-hand sides, fractal seeds and Kronecker powers) enumerated over the size/parameter grid by TLC; replay compares with scikit_tt.models or checks generator / unitary structure',
              text='TLC enumerates every model size and parameter combination in the grid and computes the exact reference tensor or table in integer arithmetic (with model-level sanity invariants); the replay builds the model with the library and compares entry-wise, checks column sums / off-diagonal signs (dense, or in TT form for sizes that do not fit) and unitarity.',
              note='trusted: TLC, spec/Models.tla, numpy for omega^E and dense products; Shor oracle unitarity in TT form uses library arithmetic (C01)', ref='§5 C13'),
+ 'C14': dict(engine='cases', tech='basis-function families transcribed as TLA+ expression trees (spec/Calculus.tla); TLC computes gradient and Hessian by symbolic differentiation, proves off-coordinate derivatives structurally zero (invariant ZeroOffCoordinate) and enumerates family x parameter x index x point; generic evaluator + replay against the library objects',
+             text='TLC is used as symbolic engine and case enumerator (no interleavings exist here): for every family, parameter set, dimension, coordinate and rational point it emits value, gradient and full Hessian expressions; the library value, partial, partial2 (all direction pairs), gradient, hessian and array evaluation must agree to 1e-9.',
+             note='trusted: TLC derivative operator D, harness/evaluator.py; assumes the documented formulas of the families', ref='§5 C14'),
 }
 NA_REASON = 'check not built yet (work in progress)'
 
